@@ -46,7 +46,7 @@ UNIT = dict(
                'SEQ obligations are stated for quiescent states satisfying the representation invariant inv (boundaries, empty outside [head,tail], full strictly inside); that inv is inductive is obligation kbq.inv.preserved',
                '[INT] rely of kbq.push.commit: other threads move head/tail only forward by whole segments keeping 0 <= tail-head <= size-k, a head CAS prepared before the item was inserted can still succeed until the head word changes, '
                'head does not leave a segment whose scan must have seen the item, the inserted item only ever changes by being taken'],
-  consts=[dict(name='XV_SLOT_MARK_BITS', file=F, regex=r'using marked_value = xenium::marked_ptr<std::remove_pointer_t<raw_value_type>,\s*(\d+)>;'), dict(name='XV_MAX_UPPER_MARK_BITS', file='xenium/marked_ptr.hpp', regex=r'#\s*define XENIUM_MAX_UPPER_MARK_BITS (\d+)'), dict(name='XV_BITS', file=F, regex=r'static constexpr unsigned bits = ([^;]+);'),
+  consts=[dict(name='XV_POP_OPTIONAL_TARGET', file=F, regex=r'::pop\(\) -> std::optional<value_type> \{\s*return (\w+)\(\s*\[\]\(auto& v\)'), dict(name='XV_SLOT_MARK_BITS', file=F, regex=r'using marked_value = xenium::marked_ptr<std::remove_pointer_t<raw_value_type>,\s*(\d+)>;'), dict(name='XV_MAX_UPPER_MARK_BITS', file='xenium/marked_ptr.hpp', regex=r'#\s*define XENIUM_MAX_UPPER_MARK_BITS (\d+)'), dict(name='XV_BITS', file=F, regex=r'static constexpr unsigned bits = ([^;]+);'),
           dict(name='XV_VAL_MASK', file=F, regex=r'static constexpr uint64_t val_mask = ([^;]+);', subst=[(r'static_cast<uint64_t>\(1\)', '((uint64_t)1)'), (r'\bbits\b', 'XV_BITS')]),
           dict(name='XV_MI_DEFAULT', file=F, regex=r'uint64_t _val = ([^;]+);')],
   sources=[
@@ -73,6 +73,10 @@ UNIT = dict(
     src('pop_success', r'\[&result\]\(auto& v\)', 'static _Bool kbq_pop_success(value_type* result_p, marked_value* v_p)',
         subst=[(r'\bresult\b', '(*result_p)', 'ref_result'), (r'\bv\b', '(*v_p)', 'ref_v')], must_fire={'subst:traits': 1, 'method:get': 1}),
     src('pop_empty', r'\[\]\(\) (?=\{ return false)', 'static _Bool kbq_pop_empty(void)', must_fire={}),
+    # pop(): the std::optional flavour of try_pop - the two lambdas it passes to do_pop, extracted as functions (std::optional<value_type> is a {present, value} pair)
+    src('opt_success', r'\[\]\(auto& v\) (?=\{ return traits::get)', 'static value_type kbq_opt_success(marked_value* v_p)', deref={},
+        subst=[(r'\bv\b', '(*v_p)', 'ref_v')], must_fire={'subst:traits': 1, 'method:get': 1}),
+    src('opt_empty', r'\[\]\(\) -> std::optional<value_type> ', 'static struct xv_opt kbq_opt_empty(void)', pre_subst=[(r'std::nullopt', 'XV_NULLOPT', 'nullopt')], must_fire={'subst:nullopt': 1}),
     src('do_pop', r'auto ' + CLS + r'do_pop\(SuccessFunc successFunc, EmptyFunc emptyFunc\)', 'static _Bool kbq_do_pop(struct kbq* self, value_type* result_p)',
         calls={'successFunc': 'XV_SUCCESSFUNC', 'emptyFunc': 'XV_EMPTYFUNC'},
         must_fire={'A_LOAD': 4, 'A_CAS': 3, 'subst:find_index_call': 1, 'call:successFunc': 1, 'call:emptyFunc': 1, 'subst:mi_ctor': 2, 'subst:mv_ctor': 1}),
@@ -88,7 +92,7 @@ UNIT = dict(
         must_fire={'ctor_init': 5, 'subst:new_entries': 1}),
     src('dtor', CLS + r'~kirsch_bounded_kfifo_queue\(\)', 'static void kbq_dtor(struct kbq* self)', must_fire={'A_LOAD': 1, 'subst:traits': 1, 'method:get': 1}),
   ],
-  runs=[dict(id='slot_word', entry='h_slot_word', cls='unbounded', note='static fact about the slot word type'), 
+  runs=[dict(id='slot_word', entry='h_slot_word', cls='unbounded', note='static fact about the slot word type'), dict(id='pop_optional', entry='h_pop_optional', cls='unbounded', note='the functors of pop(), all slot words'), 
     dict(id='ctor', entry='h_ctor', cls='unbounded', trace_defs={'XV_TRACE_SMALL': 1}, note='all 64-bit k >= 1, num_segments >= 1, v, mark'),
     dict(id='in_valid', entry='h_in_valid', cls='unbounded'),
     dict(id='not_in_valid', entry='h_not_in_valid', cls='unbounded'),
@@ -115,6 +119,7 @@ UNIT = dict(
          note='retry loop cut (one arbitrary iteration), arbitrary environment, callees = recording stubs'),
   ],
   obligations={
+    'kbq.pop_optional.same_as_try_pop': dict(deciding=True, text='pop() forwards to the same do_pop as try_pop; its success functor hands out traits::get of exactly the pointer try_pop would store (once), its empty functor an empty optional: pop() returns a value iff try_pop would succeed, and the same one'),
     'kbq.slot.any_pointer': dict(deciding=True, text='the version tag of a slot (marked_value) fits into the upper mark bits of marked_ptr (MarkBits <= XENIUM_MAX_UPPER_MARK_BITS): no low bit of the stored pointer is used, so every pointer value - whatever its alignment, e.g. a char* - round-trips through the queue'),
     'kbq.push.commit_split_snapshot': dict(deciding=True, text='[INT] as kbq.push.commit, with an environment step between the load of _tail and the load of _head in committed(): known finding F12b (the pair may describe a region that never existed)'),
     'kbq.idx.roundtrip': dict(deciding=True, text='for every (k, num_segments) the constructor accepts and every v < k*num_segments: marked_idx(v, m).get() == v, .mark() == m mod 2^(64-bits), and tag+1 gives a different word'),
@@ -140,7 +145,7 @@ UNIT = dict(
     'kbq.sync.slot_release': dict(deciding=True, text='sync precondition: the slot CAS of push and pop is release-or-stronger'),
     'kbq.find_index.result': dict(deciding=True, text='find_index returns true with the index and the value of a matching slot of the segment, false only if no slot of the segment matches'),
   },
-  canaries=['slot_word.reached', 'ctor.rejected', 'ctor.large_index', 'ctor.accepted', 'ctor.one_by_one', 'in_valid.wrap_true', 'in_valid.wrap_false', 'in_valid.nowrap_true',
+  canaries=['slot_word.reached', 'pop_optional.reached', 'ctor.rejected', 'ctor.large_index', 'ctor.accepted', 'ctor.one_by_one', 'in_valid.wrap_true', 'in_valid.wrap_false', 'in_valid.nowrap_true',
             'not_in_valid.wrap_outside', 'not_in_valid.wrap_inside', 'not_in_valid.nowrap_outside', 'find_index.found', 'find_index.found_last', 'find_index.none',
             'push.rejected', 'push.advanced_tail', 'push.advanced_head', 'push.bumped_head', 'push.on_empty', 'push.null', 'pop.empty', 'pop.empty_after_advancing', 'pop.not_the_oldest',
             'pop.advanced_tail', 'pop.advanced_head', 'init.reached', 'dtor.tracked', 'dtor.not_stored', 'segment_empty.true', 'segment_empty.false',
